@@ -11,3 +11,11 @@ pub use node_storage::*;
 pub(crate) use resource_node::*;
 pub(crate) use stat_prepare_slot::*;
 pub(crate) use stat_slot::*;
+
+/// Re-exports of the crate-private statistic types for the verification harness only.
+#[cfg(sentinel_verif)]
+#[doc(hidden)]
+pub mod verif_export {
+    pub use super::base::verif_export::*;
+    pub use super::resource_node::ResourceNode;
+}
